@@ -5,6 +5,9 @@ ROOT = os.path.dirname(os.path.dirname(os.path.abspath(__file__)))
 
 # id -> (level category, technique, level text, level note, design ref)
 BUILT = {
+ "C05": ("exploration", "proptest stateful SQL histories vs a relational reference model (results + full observation after every statement)",
+         "Generated schemas and INSERT/UPDATE/DELETE/TRUNCATE histories; after every statement the affected-row count, RETURNING rows, SELECT * multiset, COUNT(*) and index probes are compared with an in-harness relational model; listed findings are excluded from generation by their trigger tags (gates) and demonstrated by witness replays.",
+         "The model implements the unambiguous core of SQL DML (3-valued WHERE, end-of-statement constraint checking; statements whose verdict depends on checking order are not generated). Generator features named by open findings are switched off; their count is in the evidence.", "4 C05"),
  "C26": ("exploration", "proptest pairs of composite keys vs an independent value order (order-preservation, injectivity, decode round-trip)",
          "Generated pairs of 1..3-column keys over every encodable type, half of them one nudge apart so encodings share long prefixes; memcmp order must equal the documented value order, equal keys only for equal values, decode_key must invert and consume all bytes.",
          "The value order is the one written in the module documentation of src/encoding/key.rs; pairs the documentation does not order are only checked for injectivity. OwnedValue->key conversion inside Database is covered by the SQL-level index checks (C10), not here.", "4 C26"),
